@@ -16,6 +16,12 @@ CLAIMS = {
             "correspondence of the model's step with the real signer service on generated histories plus a region sweep of the rule kernel; "
             "independent slashability monitor on the implementation's own signatures", "5 C01"),
     "C02": ("Theorem C02_no_double_proposal on the model; same correspondence and monitor for proposals", "5 C02"),
+    "C03": ("Theorem C03_crash_safety_partial: with synchronous writes and write-before-sign, for every history of requests each with a "
+            "fate (completes / killed before the write returned / killed after it with any subset of the Sign calls done / killed after the "
+            "reply) and restarts, released duties stay ordered and the durable store dominates them; refutations without either mechanism. "
+            "PARTIAL: durability of a returned badger commit and fsync are trusted. Correspondence: hook event order, store contents at the "
+            "moment Sign is invoked, the SyncWrites option of the open store, and kill runs of a child process at every hook point of "
+            "short histories compared with the model", "5 C03"),
     "C05": ("Theorem C05_domain_separation (all domains of any length via their first four bytes, all admin lists and source addresses, all "
             "fault schedules) on the model; correspondence over every endpoint x prefix class x admin list x source address against the real "
             "signer service; independent monitor of the property on the observed signatures", "5 C05"),
